@@ -15,6 +15,8 @@ enum Kind {
     Negated,
     OffCurve,
     BitFlipHash,
+    /// hashes: a byte permutation of the genuine value (reversed / rotated / two bytes swapped); points: other point
+    PermutedHash,
 }
 
 struct Case {
@@ -37,14 +39,35 @@ fn wit(c: &Case) -> serde_json::Value {
 fn tamper_point(pt: &(BigUint, BigUint), kind: Kind, p: &mut Prng) -> (BigUint, BigUint) {
     let c = r2::curve();
     match kind {
-        Kind::OtherPoint | Kind::BitFlipHash => r2::mul(&rand_scalar(p, &c.n), &r2::g()).unwrap(),
+        Kind::OtherPoint | Kind::BitFlipHash | Kind::PermutedHash => r2::mul(&rand_scalar(p, &c.n), &r2::g()).unwrap(),
         Kind::Negated => r2::neg(&Some(pt.clone())).unwrap(),
         Kind::OffCurve => (pt.0.clone(), (&pt.1 + 1u32) % &c.p),
     }
 }
 
-fn tamper_hash(h: &[u8; 32], p: &mut Prng) -> [u8; 32] {
+fn tamper_hash(h: &[u8; 32], p: &mut Prng, kind: Kind) -> [u8; 32] {
     let mut o = *h;
+    if kind == Kind::PermutedHash {
+        match p.below(4) {
+            0 => o.reverse(),
+            1 => o.rotate_left(1 + p.below(31) as usize),
+            2 => {
+                let (a, b) = (p.below(32) as usize, p.below(32) as usize);
+                o.swap(a, b);
+            }
+            _ => {
+                // two different bytes XORed with the same mask: the XOR of all byte differences is zero
+                let (a, b) = (p.below(16) as usize, 16 + p.below(16) as usize);
+                let m = 1 + p.below(255) as u8;
+                o[a] ^= m;
+                o[b] ^= m;
+            }
+        }
+        if o == *h {
+            o[0] ^= 1;
+        }
+        return o;
+    }
     let k = p.below(256) as usize;
     o[k / 8] ^= 1 << (k % 8);
     o
@@ -103,7 +126,12 @@ fn history(ctx: &mut Ctx, c: &Case, p: &mut Prng) {
     }
     // transit A -> B
     let ra_b = if c.subset & 1 != 0 { tamper_point(&ra_ref, c.kind, p) } else { ra_ref.clone() };
-    let ra_b_lib = if c.subset & 1 != 0 { lib_point(&ra_b, p, false) } else { ra_lib };
+    // an honest R may reach the peer in any Jacobian representation of the same point
+    let rerand = c.klen % 3 == 1;
+    if rerand {
+        ctx.class("honest_R_rerandomised_representation");
+    }
+    let ra_b_lib = if c.subset & 1 != 0 { lib_point(&ra_b, p, false) } else if rerand { lib_point(&ra_ref, p, true) } else { ra_lib };
     // reference views
     let rb_ref = r2::mul(&c.rb, &r2::g()).unwrap();
     let ref_b = r2::exchange(&c.db, &c.rb, &rb_ref, &pa, &ra_b, &za, &zb, false, c.klen);
@@ -148,8 +176,8 @@ fn history(ctx: &mut Ctx, c: &Case, p: &mut Prng) {
     }
     // transit B -> A
     let rb_a = if c.subset & 2 != 0 { tamper_point(&rb_ref, c.kind, p) } else { rb_ref.clone() };
-    let rb_a_lib = if c.subset & 2 != 0 { lib_point(&rb_a, p, false) } else { rb_lib };
-    let sb_a = if c.subset & 4 != 0 { tamper_hash(&sb_lib, p) } else { sb_lib };
+    let rb_a_lib = if c.subset & 2 != 0 { lib_point(&rb_a, p, false) } else if rerand { lib_point(&rb_ref, p, true) } else { rb_lib };
+    let sb_a = if c.subset & 4 != 0 { tamper_hash(&sb_lib, p, c.kind) } else { sb_lib };
     let ref_a = r2::exchange(&c.da, &c.ra, &ra_ref, &pb, &rb_a, &za, &zb, true, c.klen);
     // ---- step 3 (A)
     ctx.eval();
@@ -185,7 +213,7 @@ fn history(ctx: &mut Ctx, c: &Case, p: &mut Prng) {
         return;
     }
     // transit A -> B
-    let sa_b = if c.subset & 8 != 0 { tamper_hash(&sa_lib, p) } else { sa_lib };
+    let sa_b = if c.subset & 8 != 0 { tamper_hash(&sa_lib, p, c.kind) } else { sa_lib };
     // ---- step 4 (B)
     ctx.eval();
     let o4 = guard(|| b.exchange_4(sa_b, &ra_b_lib));
@@ -220,7 +248,7 @@ pub fn run(ctx: &mut Ctx) {
     for (n, ok) in r2::selftest() {
         ctx.selftest(&n, ok);
     }
-    ctx.require(&["annex_kat", "honest_keys_equal", "step2_rejects_invalid_RA", "step3_rejects", "step4_rejects", "klen=1", "klen=16", "klen=200", "kind=OffCurve", "kind=Negated", "kind=OtherPoint", "kind=BitFlipHash", "id_non_ascii_utf8", "key_from_gen_keypair", "key_with_jacobian_public_point", "degenerate_dA_shared_point_infinity_at_B", "degenerate_dB_shared_point_infinity_at_A"]);
+    ctx.require(&["annex_kat", "honest_keys_equal", "step2_rejects_invalid_RA", "step3_rejects", "step4_rejects", "klen=1", "klen=16", "klen=200", "kind=OffCurve", "kind=Negated", "kind=OtherPoint", "kind=BitFlipHash", "kind=PermutedHash", "honest_R_rerandomised_representation", "id_non_ascii_utf8", "key_from_gen_keypair", "key_with_jacobian_public_point", "degenerate_dA_shared_point_infinity_at_B", "degenerate_dB_shared_point_infinity_at_A"]);
     for s in 0..16 {
         ctx.required.push(format!("subset={:04b}", s));
     }
@@ -244,7 +272,7 @@ pub fn run(ctx: &mut Ctx) {
     }
     let n = ctx.n(600, 40_000);
     let mut prng = ctx.prng("hist");
-    let kinds = [Kind::OtherPoint, Kind::Negated, Kind::OffCurve, Kind::BitFlipHash];
+    let kinds = [Kind::OtherPoint, Kind::Negated, Kind::OffCurve, Kind::BitFlipHash, Kind::PermutedHash];
     for i in 0..n {
         let sub = prng.next();
         if !ctx.mine(i) {
@@ -277,7 +305,7 @@ pub fn run(ctx: &mut Ctx) {
             ra: rand_scalar(&mut p, &c.n),
             rb: rand_scalar(&mut p, &c.n),
             subset: if i % 3 == 0 { 0 } else { ((i / 3) % 16) as u8 },
-            kind: kinds[((i / 48) % 4) as usize],
+            kind: kinds[((i / 48) % 5) as usize],
         };
         // degenerate static keys: d = -xbar(R) r mod n makes P + [xbar]R = O, so the peer's shared point is the
         // point at infinity and that peer must report failure (B at step 2 for A's key, A at step 3 for B's key)
